@@ -81,21 +81,17 @@ def gen_key(api):
         raise ValueError('meta shape')
     out.append('(* SignMessage: meta = <base> + i; if key.is_compressed: meta += <add> *)')
     d('signmsg_base', z(m.left.value))
-    ifs = [n for n in f.body if isinstance(n, ast.If)]
-    adds = [n for i in ifs for n in i.body if isinstance(n, ast.AugAssign) and _name(n.target, 'meta')
-            and isinstance(n.op, ast.Add) and _is_int(n.value)]
     all_aug = [n for n in ast.walk(f) if isinstance(n, ast.AugAssign) and _name(n.target, 'meta')]
     if len(all_aug) == 0:
-        d('signmsg_compressed_add', z(0))     # the statement is gone: the flag is never added
+        d('signmsg_compressed_add', z(0))     # the statement is absent: nothing is added
     else:
-        if len(all_aug) != 1 or len(adds) != 1:
-            raise ValueError('meta += shape')
-        i = ifs[[n for i2 in ifs for n in [i2] if adds[0] in i2.body].index(
-            [i2 for i2 in ifs if adds[0] in i2.body][0])]
-        t = i.test
-        if not (isinstance(t, ast.Attribute) and t.attr == 'is_compressed' and _name(t.value, 'key') and not i.orelse):
-            raise ValueError('if key.is_compressed shape')
-        d('signmsg_compressed_add', z(adds[0].value.value))
+        aug = _one(all_aug, 'meta += <add>')
+        guard = _one([n for n in f.body if isinstance(n, ast.If) and aug in n.body], 'if key.is_compressed:')
+        t = guard.test
+        if not (isinstance(aug.op, ast.Add) and _is_int(aug.value) and len(guard.body) == 1 and not guard.orelse
+                and isinstance(t, ast.Attribute) and t.attr == 'is_compressed' and _name(t.value, 'key')):
+            raise ValueError('if key.is_compressed: meta += <add> shape')
+        d('signmsg_compressed_add', z(aug.value.value))
     import bitcoin.signmessage as sgm
     dflt = sgm.BitcoinMessage.__init__.__defaults__
     if not (isinstance(dflt, tuple) and len(dflt) == 2 and all(isinstance(x, str) for x in dflt)):
